@@ -169,6 +169,8 @@ def run(ctx: Ctx) -> None:
                             t0 = clock.us
                             inject_status(b.app, inv, cur, owner, t0)
                             clock.advance(1000)
+                            if len(res) % 5 == 3:
+                                clock.advance(-5_001_000)      # the requester's clock is 5 s BEHIND the stored timestamp (hosts with skewed clocks, an NTP step back)
                             before = b.read(inv)
                             out = b.set(inv, req, rid)
                             after = b.read(inv)
@@ -180,8 +182,11 @@ def run(ctx: Ctx) -> None:
                                                f"{after[0]} but the status-filtered listing shows the invocation under {ls}",
                                                {"kind": "public-step", "backend": b.kind, "nested": b.nested, "cur": cur.value, "owner": owner, "req": req.value, "rid": rid})
                             res.append((cur, owner, req, rid, out, before, after))
+                            ts_req = clock.us
+                            if clock.us < t0:
+                                clock.advance(t0 - clock.us + 2000)     # (the next step starts after this one again)
                             mlines += [f"orch.inject {tok(inv)} {cur.value} {tok(owner)} {t0}",
-                                       f"orch.set {tok(inv)} {req.value} {tok(rid)} {clock.us}",
+                                       f"orch.set {tok(inv)} {req.value} {tok(rid)} {ts_req}",
                                        f"orch.get {tok(inv)}"]
             flush(b.app)
             mouts = drv.ask_many(mlines)[2:]
